@@ -1,13 +1,29 @@
 //! A hostile third-party contract: it answers the CW20 `TokenInfo` probe, forwards any message
 //! to any contract (so the marketplace sees the hostile contract as `info.sender`, with whatever
 //! `sender` field the payload claims), and its own `transfer` / `transfer_nft` handlers succeed
-//! or fail according to a switch.
+//! or fail according to a switch; when they succeed they may call back into the marketplace
+//! (re-entry program, model/Reentry.v).
 use anyhow::{bail, Result as AnyResult};
-use cosmwasm_std::{to_binary, Binary, CosmosMsg, Deps, DepsMut, Empty, Env, MessageInfo, Reply, Response, Uint128, WasmMsg};
+use cosmwasm_std::{to_binary, Binary, CosmosMsg, Deps, DepsMut, Empty, Env, MessageInfo, Reply, Response, SubMsg, Uint128, WasmMsg};
 use cw_multi_test::Contract;
 use serde_json::Value;
 
 use crate::chain::SharedRef;
+
+fn parse_funds(v: Option<&Value>) -> AnyResult<Vec<cosmwasm_std::Coin>> {
+    let mut funds = vec![];
+    if let Some(arr) = v.and_then(|x| x.as_array()) {
+        for c in arr {
+            let denom = c[0].as_str().unwrap_or("").to_string();
+            let amount = match &c[1] {
+                Value::String(x) => x.parse::<u128>()?,
+                other => other.as_u64().unwrap_or(0) as u128,
+            };
+            funds.push(cosmwasm_std::Coin { denom, amount: Uint128::new(amount) });
+        }
+    }
+    Ok(funds)
+}
 
 pub struct HostileContract {
     pub shared: SharedRef,
@@ -19,17 +35,7 @@ impl Contract<Empty> for HostileContract {
         if let Some(f) = v.get("forward") {
             let to = f["to"].as_str().unwrap_or("").to_string();
             let inner = serde_json::to_vec(&f["msg"])?;
-            let mut funds = vec![];
-            if let Some(arr) = f.get("funds").and_then(|x| x.as_array()) {
-                for c in arr {
-                    let denom = c[0].as_str().unwrap_or("").to_string();
-                    let amount = match &c[1] {
-                        Value::String(x) => x.parse::<u128>()?,
-                        other => other.as_u64().unwrap_or(0) as u128,
-                    };
-                    funds.push(cosmwasm_std::Coin { denom, amount: Uint128::new(amount) });
-                }
-            }
+            let funds = parse_funds(f.get("funds"))?;
             return Ok(Response::new().add_message(CosmosMsg::Wasm(WasmMsg::Execute {
                 contract_addr: to,
                 msg: Binary::from(inner),
@@ -40,7 +46,19 @@ impl Contract<Empty> for HostileContract {
             if self.shared.borrow().hostile_fail {
                 bail!("hostile token refuses to transfer")
             }
-            return Ok(Response::new());
+            // re-entry: the first transfer request of the operation triggers the program, each call as a
+            // sub-transaction whose failure is swallowed (reply on error, see `reply`)
+            let prog: Vec<Value> = std::mem::take(&mut self.shared.borrow_mut().reentry);
+            let mut resp = Response::new();
+            for (k, f) in prog.iter().enumerate() {
+                let to = f["to"].as_str().unwrap_or("").to_string();
+                let inner = serde_json::to_vec(&f["msg"])?;
+                resp = resp.add_submessage(SubMsg::reply_on_error(
+                    CosmosMsg::Wasm(WasmMsg::Execute { contract_addr: to, msg: Binary::from(inner), funds: parse_funds(f.get("funds"))? }),
+                    1000 + k as u64,
+                ));
+            }
+            return Ok(resp);
         }
         bail!("hostile: unknown message")
     }
@@ -67,7 +85,8 @@ impl Contract<Empty> for HostileContract {
     }
 
     fn reply(&self, _deps: DepsMut, _env: Env, _msg: Reply) -> AnyResult<Response> {
-        bail!("reply not implemented")
+        // a failed re-entrant call is swallowed
+        Ok(Response::new())
     }
 
     fn migrate(&self, _deps: DepsMut, _env: Env, _msg: Vec<u8>) -> AnyResult<Response> {
